@@ -37,6 +37,16 @@ def _variants(data, src):
     except Exception:  # noqa: BLE001
         pass
     try:
+        # the opcodes slice-assigned into an object that was decompiled as something else before
+        q = Pickled.load(b"N.")
+        q.ast
+        q[:] = list(Pickled.load(data))
+        s4 = ast.unparse(q.ast)
+        if s4 != src:
+            out.append(("of an object these opcodes were slice-assigned into after it had been decompiled", s4))
+    except Exception:  # noqa: BLE001
+        pass
+    try:
         with contextlib.redirect_stdout(io.StringIO()):
             s3 = ast.unparse(Trace(Interpreter(Pickled.load(data))).run())
         if s3 != src:
